@@ -64,6 +64,8 @@ class RandInfoBuilder(ModelVisitor,RandIF):
         # TODO: need access to the random state
         super().__init__()
         self._pass = 0
+        # Constraint statements that reference no field at all
+        self._floating_constraint_l = []
         self._field_m = {}
         self._field_l = []
         self._active_constraint = None
@@ -156,7 +158,8 @@ class RandInfoBuilder(ModelVisitor,RandIF):
         nonrand_fields.sort(key=lambda e: e[0])
         
         return RandInfo(randset_l, 
-                list(map(lambda e: e[1], nonrand_fields)))
+                list(map(lambda e: e[1], nonrand_fields)),
+                builder._floating_constraint_l)
     
     def randint(self, low:int, high:int)->int:
         return self._rng.randint(low,high)
@@ -208,8 +211,9 @@ class RandInfoBuilder(ModelVisitor,RandIF):
                 for s in self._active_order_randset_s:
                     s.add_constraint(c)
             else:
-#                print("TODO: handle no-reference constraint: " + str(c_blk.name))
-                pass
+                # No-reference constraint: it belongs to no randset,
+                # so it can only be checked
+                self._floating_constraint_l.append(c)
         super().visit_constraint_stmt_leave(c)
         
     def visit_constraint_dynref(self, c):
